@@ -1,13 +1,16 @@
 """C02 rule set (see DESIGN.md section 5)."""
 from rules.search import r02_1, r01_5, r01_6
 from rules.builder import r02_2, r01_1
+from rules.layout import r04_5_iter, r04_5_dfa
+from rules.prefilter import r05_3
 
 LEVEL = 'other'
-RULES = [('R02.1', r02_1), ('R02.2', r02_2), ('R01.1', r01_1), ('R01.5', r01_5), ('R01.6', r01_6)]
+RULES = [('R02.1', r02_1), ('R02.2', r02_2), ('R01.1', r01_1), ('R01.5', r01_5), ('R01.6', r01_6), ('R04.5i', r04_5_iter), ('R04.5d', r04_5_dfa), ('R05.3', r05_3)]
 EXPLANATION = """R02.1 standard semantics force earliest: earliest = is_standard() || get_earliest(), plumbed consistently into the five driver calls.
 R02.2 in the BFS of fill_failure_transitions the computed failure link f (start at states[id].fail, follow failure links while
 follow_transition(f, byte) == FAIL, then take the transition) is stored to states[t.next].fail and followed by copy_matches(f, t.next)
-with the same f and target; under standard semantics each dequeued state also inherits the start state's matches. R01.1 phase order;
+with the same f and target; under standard semantics each dequeued state also inherits the start state's matches. the work queue is FIFO (breadth-first).
+R04.5i/R04.5d the DFA is filled for every byte 0..=255 and follows failure links; R05.3 prefilter candidate arithmetic. R01.1 phase order;
 R01.5 / R01.6 driver and iterator shape (shared with C01)."""
 NOT_DECIDED = """Failure-link correctness for arbitrary tries; that max_match_id bounds exactly the match states; completeness of id remapping (R02.3 of the design was not built)."""
 CLAIM = """Static decision of the earliest-flag derivation/plumbing and of the failure-link / match-inheritance pairing in the builder; mechanism shape only."""
